@@ -83,6 +83,7 @@ package dstutil
 //@ func (a *application) apply
 //@ trusted
 //@ modifies allbut(heap(application.pre); heap(application.post))
+//@ ensures cursor_restored: a.cursor.parent == old(a.cursor.parent) && a.cursor.name == old(a.cursor.name) && a.cursor.iter == old(a.cursor.iter) && a.cursor.node == old(a.cursor.node)
 //@ ensures unvisited_kept: iter != nil ==> 0 <= iter.index + iter.step && rlen(parent, name) - (iter.index + iter.step) == old(rlen(parent, name) - (iter.index + iter.step)) && (forall k int :: 0 <= k && k < rlen(parent, name) - (iter.index + iter.step) ==> rat(parent, name, iter.index + iter.step + k) == old(rat(parent, name, iter.index + iter.step + k)))
 
 //@ func (a *application) applyList
@@ -93,9 +94,9 @@ package dstutil
 //@ func callback.pre
 //@ trusted
 //@ attr params = c
-//@ modifies allbut(heap(application.pre); heap(application.post))
+//@ modifies allbut(heap(application.pre); heap(application.post); heap(Cursor.parent); heap(Cursor.name); heap(Cursor.iter); heap(Cursor.node))
 
 //@ func callback.post
 //@ trusted
 //@ attr params = c
-//@ modifies allbut(heap(application.pre); heap(application.post))
+//@ modifies allbut(heap(application.pre); heap(application.post); heap(Cursor.parent); heap(Cursor.name); heap(Cursor.iter); heap(Cursor.node))
